@@ -45,6 +45,10 @@ func (c *Ctx) genSquareCase(maxChoices []int) sqCase {
 		k = 0
 	}
 	manyEqual := c.rng.Chance(1, 12) // >= 13 blobs of few namespaces: exercises sort stability
+	var usedLens []struct {
+		n  int
+		v1 bool
+	}
 	if manyEqual {
 		k = c.rng.Range(7, 12)
 	}
@@ -95,7 +99,20 @@ func (c *Ctx) genSquareCase(maxChoices []int) sqCase {
 				}
 				sc.class = "compact-ns-blob"
 			}
-			specs[j] = c.randBlob(ns, n, c.rng.Chance(1, 3))
+			v1 := c.rng.Chance(1, 3)
+			if len(usedLens) > 0 && c.rng.Chance(1, 6) {
+				// the exact data length of an earlier blob of this list under the OTHER share version (the two
+				// need different share counts when the length lies in a signer window)
+				u := usedLens[c.rng.Intn(len(usedLens))]
+				n, v1 = u.n, !u.v1
+			} else if c.rng.Chance(1, 12) {
+				n = c.rng.Range(459, 478) + 482*c.rng.Pick([]int{0, 0, 1, 2, 5})
+			}
+			usedLens = append(usedLens, struct {
+				n  int
+				v1 bool
+			}{n, v1})
+			specs[j] = c.randBlob(ns, n, v1)
 			if c.rng.Chance(1, 10) {
 				// probe: blobs that NewBlob must refuse (empty non-nil signer under version 0, signers of 19 / 21
 				// bytes under version 1). On the unchanged tree they are refused and nothing happens; if a change
